@@ -380,6 +380,8 @@ class Family:
                 "shard/write", "ping", "quit", "disconnect", "nschange", "order-dependent"] + \
                ["fault:%s" % f for f in ("get/err", "begin/broken", "setac/broken", "exec/err", "exec/broken", "exec/closed",
                                          "commit/broken", "rollback/broken", "ping/broken", "sync/broken", "init/broken")]
+        if self.pid == "C23":
+            want.remove("fault:sync/broken")   # SyncSessionVariables is only called by getTransactionConn (no keep-session)
         zero = [a for a in want if not ctx.cov.get("action_counts", {}).get(a)]
         ctx.cov["zero_actions"] = zero
         if zero:
